@@ -116,6 +116,8 @@ package zerolog
 //@   arith int
 //@   requires w != nil
 //@   ensures res != nil && typeis(res, "*syncWriter") && dyn(res, "*syncWriter") != nil && fresh(dyn(res, "*syncWriter")) && dyn(res, "*syncWriter").lw != nil
+//@   ensures [C04,C06] implements(w, "LevelWriter") ==> dyn(res, "*syncWriter").lw == w
+//@   ensures [C04,C06] !implements(w, "LevelWriter") ==> typeis(dyn(res, "*syncWriter").lw, "LevelWriterAdapter")
 
 //@ func (LevelWriterAdapter).WriteLevel(lw, l, p) n, err
 //@   props C06
